@@ -774,6 +774,12 @@ fn run_sched_on(case: &SchedCase, pool: &(ActorThread, ActorThread)) -> Option<S
                                     break;
                                 }
                                 if producer_finished.load(Ordering::SeqCst) {
+                                    // every wake the producer will ever issue has been issued by
+                                    // now; one may have landed between the flag check above and
+                                    // this one, so the flag is read again before concluding
+                                    if woken_flag.swap(false, Ordering::SeqCst) {
+                                        break;
+                                    }
                                     let (ev, _) = {
                                         let mut b = body.lock().unwrap_or_else(|p| p.into_inner());
                                         poll_once(b.as_mut().unwrap(), &mut cx)
@@ -874,4 +880,205 @@ pub fn next_prefix(decisions: &[(u8, u8)]) -> Option<Vec<u8>> {
         }
     }
     None
+}
+
+// ====================================================================== hint-spin trials ====
+//
+// Free-running: one thread does nothing but ask the body for `is_end_stream()` / `size_hint()`
+// (as hyper does around every poll) while another thread ends the stream (drop with an
+// unflushed tail, or abort) at an arbitrary instant. The samples are judged afterwards against
+// what the body then delivered. No scheduler hooks are involved: the window of interest may
+// contain no lock event at all.
+
+#[derive(Clone, Debug, PartialEq, Eq, Hash)]
+pub struct SpinCase {
+    pub chunk: usize,
+    pub gzip: Option<u32>,
+    /// bytes written and flushed (and drained by the consumer) before the race
+    pub pre: u32,
+    /// bytes written and left unflushed when the writer ends
+    pub tail: u32,
+    /// the writer ends with abort instead of a plain drop
+    pub abort: bool,
+    /// spin iterations of the producer between the start signal and the end of the writer
+    pub delay: u32,
+}
+
+impl SpinCase {
+    pub fn to_json(&self) -> Value {
+        json!({"spin": true, "chunk": self.chunk, "gzip_level": self.gzip, "pre": self.pre, "tail": self.tail, "abort": self.abort, "delay": self.delay})
+    }
+    pub fn from_json(v: &Value) -> SpinCase {
+        SpinCase {
+            chunk: v["chunk"].as_u64().unwrap_or(4096) as usize,
+            gzip: v["gzip_level"].as_u64().map(|x| x as u32),
+            pre: v["pre"].as_u64().unwrap_or(0) as u32,
+            tail: v["tail"].as_u64().unwrap_or(1) as u32,
+            abort: v["abort"].as_bool().unwrap_or(false),
+            delay: v["delay"].as_u64().unwrap_or(0) as u32,
+        }
+    }
+}
+
+#[derive(Clone, Debug, Default)]
+pub struct SpinObs {
+    /// distinct consecutive samples: (lower, upper, is_end_stream, bytes delivered when sampled)
+    pub samples: Vec<(u64, Option<u64>, bool, u64)>,
+    pub n_samples: u64,
+    /// samples taken while the producer was inside its final operation (between its two marks)
+    pub samples_during_end: u64,
+    pub delivered: u64,
+    pub terminal: Option<Ev>,
+    /// what the body produced after the first `is_end_stream() == true`
+    pub after_end_flag: Vec<Ev>,
+    pub panic: Option<String>,
+}
+
+impl SpinObs {
+    pub fn to_json(&self) -> Value {
+        json!({
+            "distinct_consecutive_samples": self.samples.iter().take(40).map(|(l, u, e, d)| json!([l, u, e, d])).collect::<Vec<_>>(),
+            "n_samples": self.n_samples,
+            "samples_during_end": self.samples_during_end,
+            "delivered": self.delivered,
+            "terminal": self.terminal.as_ref().map(|t| format!("{:?}", t)),
+            "after_end_flag": self.after_end_flag.iter().map(|t| format!("{:?}", t)).collect::<Vec<_>>(),
+            "panic": self.panic,
+        })
+    }
+}
+
+pub fn run_spin(case: &SpinCase) -> Option<SpinObs> {
+    POOL.with(|p| {
+        let mut p = p.borrow_mut();
+        let pool = p.get_or_insert_with(|| (ActorThread::new(), ActorThread::new()));
+        run_spin_on(case, pool)
+    })
+}
+
+fn run_spin_on(case: &SpinCase, pool: &(ActorThread, ActorThread)) -> Option<SpinObs> {
+    let sc = match case.gzip {
+        None => StreamCase::raw(case.chunk, vec![]),
+        Some(l) => StreamCase::gzip(case.chunk, l, vec![]),
+    };
+    let (resp, writer) = build(&sc)?;
+    let mut writer = writer?;
+    let (_, body) = resp.into_parts();
+    let mut body = Box::pin(body);
+    // phase: 0 = producer preparing, 1 = prepared, 2 = go, 3 = ending, 4 = ended
+    let phase = Arc::new(AtomicU64::new(0));
+    let panic_slot = Arc::new(Mutex::new(None::<String>));
+    {
+        let phase = phase.clone();
+        let case = case.clone();
+        let panic_slot = panic_slot.clone();
+        pool.0.run(Box::new(move || {
+            set_thread_callback(None);
+            let r = crate::util::catch(|| {
+                if case.pre > 0 {
+                    let _ = writer.write_all(&payload(Payload::Hash, 0, case.pre as usize));
+                    let _ = writer.flush();
+                }
+                if case.tail > 0 {
+                    let _ = writer.write_all(&payload(Payload::Hash, case.pre as u64, case.tail as usize));
+                }
+                phase.store(1, Ordering::SeqCst);
+                while phase.load(Ordering::SeqCst) < 2 {
+                    std::hint::spin_loop();
+                }
+                for _ in 0..case.delay {
+                    std::hint::spin_loop();
+                }
+                phase.store(3, Ordering::SeqCst);
+                if case.abort {
+                    writer.abort("aborted by harness".into());
+                }
+                drop(writer);
+                phase.store(4, Ordering::SeqCst);
+            });
+            if let Err(p) = r {
+                *panic_slot.lock().unwrap() = Some(format!("producer: {}", p));
+                phase.store(4, Ordering::SeqCst);
+            }
+        }));
+    }
+    let mut obs = SpinObs::default();
+    let r = crate::util::catch(|| {
+        let w = Waker::from(Arc::new(crate::bodymon::CountWaker(AtomicU64::new(0))));
+        let mut cx = Context::from_waker(&w);
+        while phase.load(Ordering::SeqCst) < 1 {
+            std::hint::spin_loop();
+        }
+        // drain what was flushed so that the queue is empty when the race starts
+        loop {
+            let (ev, data) = poll_once(&mut body, &mut cx);
+            if let Some(d) = data {
+                obs.delivered += d.len() as u64;
+            }
+            if !matches!(ev, Ev::Data(_) | Ev::OtherFrame) {
+                if matches!(ev, Ev::End | Ev::Err(_)) {
+                    obs.terminal = Some(ev);
+                }
+                break;
+            }
+        }
+        phase.store(2, Ordering::SeqCst);
+        let mut said_end = false;
+        let mut after = 0u32;
+        while obs.terminal.is_none() {
+            let ph = phase.load(Ordering::Relaxed);
+            let e = body.is_end_stream();
+            let h = body.size_hint();
+            obs.n_samples += 1;
+            if ph == 3 {
+                obs.samples_during_end += 1;
+            }
+            let s = (h.lower(), h.upper(), e, obs.delivered);
+            if obs.samples.last() != Some(&s) && obs.samples.len() < 10_000 {
+                obs.samples.push(s);
+            }
+            if e {
+                said_end = true;
+            }
+            if said_end || ph == 4 {
+                if ph == 4 {
+                    after += 1;
+                }
+                if said_end || after > 3 {
+                    break;
+                }
+            }
+        }
+        // drain to the terminal event
+        let mut pendings = 0u64;
+        while obs.terminal.is_none() {
+            let (ev, data) = poll_once(&mut body, &mut cx);
+            if let Some(d) = &data {
+                obs.delivered += d.len() as u64;
+            }
+            if said_end {
+                obs.after_end_flag.push(ev.clone());
+            }
+            match ev {
+                Ev::End | Ev::Err(_) | Ev::Panic(_) => obs.terminal = Some(ev),
+                Ev::Pending => {
+                    pendings += 1;
+                    if phase.load(Ordering::SeqCst) == 4 && pendings > 1_000_000 {
+                        break; // a progress problem; not this monitor's subject
+                    }
+                    std::hint::spin_loop();
+                }
+                _ => {}
+            }
+        }
+    });
+    pool.0.wait();
+    if let Err(p) = r {
+        obs.panic = Some(format!("consumer: {}", p));
+        std::mem::forget(body);
+    } else if panic_slot.lock().unwrap().is_some() {
+        obs.panic = panic_slot.lock().unwrap().clone();
+        std::mem::forget(body);
+    }
+    Some(obs)
 }
